@@ -79,8 +79,11 @@ func toGenericReflect(v any) (map[any]any, error) {
 		return nil, ErrInputNotMap
 	}
 	result := make(map[any]any, rv.Len())
-	for _, key := range rv.MapKeys() {
-		result[key.Interface()] = rv.MapIndex(key).Interface()
+	// MapRange instead of MapKeys+MapIndex: a NaN key is never found again by MapIndex
+	// (NaN != NaN), which returned the zero Value and made Interface() panic.
+	iter := rv.MapRange()
+	for iter.Next() {
+		result[iter.Key().Interface()] = iter.Value().Interface()
 	}
 	return result, nil
 }
